@@ -6,6 +6,7 @@ completion of each kind at every statement position)."""
 import itertools
 import json
 import random
+import re
 
 
 class B:
@@ -321,6 +322,11 @@ function mk(id,n,hasRet,retThrows,nt,hasThrow){ var it={}; it[Symbol.iterator]=f
 '''
 
 
+def K(v, opts):
+    """a numeric literal, or under the constvar rewrite the variable holding it"""
+    return 'K%d' % v if opts.get('constvar') and 0 <= v <= 9 else '%d' % v
+
+
 def mkcall(n):
     return 'mk(%d,%d,%d,%d,%d,%d)' % (n['l'], n['n'], n['b'], n['c'], n['nt'], n['k'] if n['t'] == 'ystar' else 0)
 
@@ -343,9 +349,13 @@ def print_stmts(nodes, i, ind=1, opts=None, single=False):
         elif t == 'ystar':
             out.append(p + 'log(8000 + ((yield* %s) || 0));' % mkcall(n))
         elif t == 'throw':
-            out.append(p + 'throw %d;' % n['n'])
+            out.append(p + 'throw %s;' % K(n['n'], opts))
+            if opts.get('deadcode'):
+                out.append(p + 'log(987654); T = !T;')
         elif t == 'return':
-            out.append(p + 'return %d;' % n['n'])
+            out.append(p + 'return %s;' % K(n['n'], opts))
+            if opts.get('deadcode'):
+                out.append(p + 'log(987655); for (;;) {}')
         elif t == 'break':
             out.append(p + ('break L%d;' % n['l'] if n['l'] else 'break;'))
         elif t == 'continue':
@@ -355,7 +365,10 @@ def print_stmts(nodes, i, ind=1, opts=None, single=False):
             out += print_stmts(nodes, n['a'], ind + 1, opts)
             out.append(p + '}')
         elif t == 'if':
-            out.append(p + 'if (%s) {' % ('T' if n['n'] == 1 else 'Fa'))
+            if opts.get('constvar'):
+                out.append(p + 'if (%s) {' % ('T' if n['n'] == 1 else 'Fa'))
+            else:       # a literal condition: the untaken branch is compiled in the compiler's discard mode
+                out.append(p + 'if (%s) {' % ('true' if n['n'] == 1 else 'false'))
             out += print_stmts(nodes, n['a'], ind + 1, opts)
             if n['b']:
                 out.append(p + '} else {')
@@ -378,9 +391,9 @@ def print_stmts(nodes, i, ind=1, opts=None, single=False):
             if n['c'] == 1:      # do-while: body runs max(1, n) times
                 out.append(p + 'var %s=0; %sdo {' % (v, pre))
                 out += body
-                out.append(p + '} while (++%s<%d);' % (v, n['n']))
+                out.append(p + '} while (++%s<%s);' % (v, K(n['n'], opts)))
             elif n['k'] == 1:    # while with explicit counter; `continue` must still advance: increment in the test
-                out.append(p + 'var %s=0; %swhile (%s++<%d) {' % (v, pre, v, n['n']))
+                out.append(p + 'var %s=0; %swhile (%s++<%s) {' % (v, pre, v, K(n['n'], opts)))
                 out += body
                 out.append(p + '}')
             elif n['k'] == 2:    # for-in over an object with n keys
@@ -389,11 +402,11 @@ def print_stmts(nodes, i, ind=1, opts=None, single=False):
                 out += body
                 out.append(p + '}')
             elif n['k'] == 3:    # for with let binding (per-iteration environment)
-                out.append(p + '%sfor (let %s=0; %s<%d; %s++) {' % (pre, v, v, n['n'], v))
+                out.append(p + '%sfor (let %s=0; %s<%s; %s++) {' % (pre, v, v, K(n['n'], opts), v))
                 out += body
                 out.append(p + '}')
             else:
-                out.append(p + '%sfor (var %s=0; %s<%d; %s++) {' % (pre, v, v, n['n'], v))
+                out.append(p + '%sfor (var %s=0; %s<%s; %s++) {' % (pre, v, v, K(n['n'], opts), v))
                 out += body
                 out.append(p + '}')
         elif t == 'forof':
@@ -417,7 +430,7 @@ def print_stmts(nodes, i, ind=1, opts=None, single=False):
             i = n['nx']
             continue
         elif t == 'switch':
-            out.append(p + 'switch (%d) {' % n['n'])
+            out.append(p + 'switch (%s) {' % K(n['n'], opts))
             c = n['a']
             while c:
                 cn = nodes[c - 1]
@@ -433,10 +446,61 @@ def print_stmts(nodes, i, ind=1, opts=None, single=False):
     return out
 
 
-def print_js(prog, probes=False):
-    """JavaScript source whose observable behaviour (log calls + completion) the oracle predicts."""
+VARIANTS = ["base", "constvar", "closure", "evaldyn", "with", "block", "iife", "arrowiife", "tostring", "strict", "evalplace", "deadcode"]
+
+
+def print_js(prog, probes=False, variant="base"):
+    """JavaScript source whose observable behaviour (log calls + completion) the oracle predicts.
+
+    `variant` applies one rewrite from the C02 catalogue; every variant must behave exactly like "base":
+      constvar   literal operands replaced by variables (defeats constant folding / dead-branch elimination)
+      closure    the loop variables are captured by a closure that is never called (stack -> stash allocation)
+      evaldyn    the function contains a direct eval("") (dynamic scope: every binding in the stash, by-name lookup)
+      with       the body runs inside with({}) (object environment on the scope chain)
+      block      the body is wrapped in an extra block with a lexical declaration
+      iife       the body is wrapped in an immediately invoked function expression (returns travel through it)
+      arrowiife  same with an arrow function (generators excluded: yield cannot cross it)
+      tostring   the function is replaced by the re-evaluation of its own toString() text
+      strict     "use strict" (the subset has no mode-sensitive construct except `with`)
+      evalplace  the whole function is created by an indirect eval at call time
+      deadcode   unreachable statements are appended after every abrupt statement (handled by the statement printer)"""
     nodes = prog['nodes']
-    body = '\n'.join(print_stmts(nodes, nodes[prog['root'] - 1]['a'], 1, {'probes': True} if probes else None))
+    opts = {}
+    if probes:
+        opts['probes'] = True
+    if variant == "constvar":
+        opts['constvar'] = True
+    if variant == "deadcode":
+        opts['deadcode'] = True
+    body = '\n'.join(print_stmts(nodes, nodes[prog['root'] - 1]['a'], 1, opts))
+    star = '*' if prog['gen'] else ''
+    pre_body = ''
+    if variant == "constvar":
+        pre_body = '  var K0=0,K1=1,K2=2,K3=3,K4=4,K5=5,K6=6,K7=7,K8=8,K9=9;\n'
+    if variant == "closure":
+        loopvars = sorted(set(re.findall(r'\b(?:i|x)\d+\b', body)))
+        pre_body = '  var __never = function(){ return [%s] };\n' % ','.join(loopvars)
+    if variant == "evaldyn":
+        pre_body = '  eval("");\n'
+    if variant == "strict":
+        pre_body = '  "use strict";\n'
+    if variant == "with":
+        body = '  with ({}) {\n' + body + '\n  }'
+    if variant == "block":
+        body = '  { let __blk = 1;\n' + body + '\n  }'
+    if variant == "iife" or (variant == "arrowiife" and prog['gen']):
+        if prog['gen']:
+            body = '  return yield* (function*(){\n' + body + '\n  }).call(this);'
+        else:
+            body = '  return (function(){\n' + body + '\n  }).call(this);'
+    elif variant == "arrowiife":
+        body = '  return (() => {\n' + body + '\n  })();'
+    fdef = 'function%s f(){\n' % star + pre_body + body + '\n}'
+    if variant == "tostring":
+        fdef += '\nf = (0, eval)("(" + f.toString() + ")");'
+    if variant == "evalplace":
+        fdef = 'var f = (0, eval)(%s);' % json.dumps('(' + fdef + ')')
+    head = PRE + 'var T=true, Fa=false;\n'
     if prog['gen']:
         def call(i, o):
             c = 'R(function(){ return it.%s(%d) })' % (o['op'], o['v'])
@@ -449,10 +513,10 @@ def print_js(prog, probes=False):
                 return 'for (var q%d in {a:1}) { try { %s; } finally { } }' % (i, c)
             return c + ';'
         drv = '\n'.join(call(i, o) for i, o in enumerate(prog['ops']))
-        return (PRE + 'var T=true, Fa=false;\nfunction* f(){\n' + body + '\n}\nvar it=f();\n'
+        return (head + fdef + '\nvar it=f();\n'
                 'function R(g){ try { var r=g(); log(100000 + (r.value===undefined?0:r.value)*10 + (r.done?1:0)) } '
                 'catch(e){ log(200000+E(e)) } }\n' + drv)
-    return PRE + 'var T=true, Fa=false;\nfunction f(){\n' + body + '\n}'
+    return head + fdef
 
 
 def write_programs(progs, progs_path, srcs_path):
